@@ -634,6 +634,9 @@ class Executor(Exec):
             v = args[0]
             if isinstance(v, AList):
                 return v.length
+            if isinstance(v, ASet):
+                from .engine import SetLen
+                return SetLen(v)
             if isinstance(v, (list, tuple, dict, set, frozenset, str)):
                 return len(v)
             if is_z3(v) and z3.is_string(v):
